@@ -406,3 +406,29 @@ func init() {
 	profiles["C03"] = dagProfile("C03")
 	profiles["C15"] = dagProfile("C15")
 }
+
+func init() {
+	profiles["C16"] = &profile{
+		config: func(r *RNG, thorough bool) *RunConfig {
+			cfg := baseConfig("C16", r, thorough)
+			cfg.N0 = []int{1, 2, 3, 3, 4}[r.Intn(5)]
+			cfg.Stores = make([]string, cfg.N0)
+			for i := range cfg.Stores {
+				cfg.Stores[i] = "inmem"
+			}
+			cfg.PSubmit = 0.3
+			withMembership(cfg, r, 0.3)
+			return cfg
+		},
+		run: func(c *Cluster, spec *runSpec) {
+			// node 0 records every write it issues
+			c.recordWrites = true
+			c.genesis()
+			c.drive(spec)
+			c.finalChecks(spec)
+			if c.recorder != nil && len(c.recorder.ops) > 0 {
+				c.runStoreEngine(c.recorder.ops)
+			}
+		},
+	}
+}
